@@ -575,6 +575,8 @@ FamClean(K, CH) ==
           \cup {Scn(gr, <<Build(Roots(gr), 2, 1), [op |-> "setstmts", stmts |-> DropStmt(gr, k)], CleanOp("dead", <<>>, FALSE, n),
                            Build(<<>>, 2, 1)>>) : k \in Droppable(gr), n \in BOOLEAN} :
           gr \in CleanGraphs(K) }
+  \* cleaning does not need an acyclic graph: manifests with dependency cycles (which only a build diagnoses)
+  \cup UNION { {Scn(gr, <<c>>) : c \in Pick(CH + 2, {x \in CleanOps(gr) : x.mode \in {"targets", "all"}})} : gr \in CycGraphs(K) }
 
 (***************************************************************************)
 (* C20, the output stream: what commands print (marks, NUL bytes, ANSI      *)
